@@ -77,13 +77,26 @@ CHECKS["C03"] = dict(
          "byte-level comparison. Scheduler and socket behaviour under concurrent connections are explored, not proved.",
 )
 CHECKS["C19"] = dict(
-    category="proof", design_ref="DESIGN.md §6 C19", engine="serve",
-    technique="Lean 4 theorems (history-level exactly-once delivery; subscription table refinement) + differential correspondence of pushes/counts; concurrency explored, not proved",
+    category="proof", design_ref="DESIGN.md §6 C19, §10.11", engine="serve+conc",
+    technique="Lean 4 theorems (history-level exactly-once delivery; subscription table refinement; micro-step concurrency model of the subscription table: "
+              "lock order, deadlock freedom, per-channel linearizability with helping) + differential correspondence of pushes/counts + per-goroutine lock/access "
+              "event automaton on every run (hook H2b) + concurrent exploration (-race)",
     text="PubSub.delivery_exact/publish_count: for every operation sequence each connection receives exactly the messages published while it was subscribed, "
          "once, in order, and PUBLISH counts them. Exec.subs_subscribe/subs_disconnect/publish_delivers/targets_once/subs_nodup tie the executable "
          "connection-layer model to that abstract table. Sessions of subscribers, publishers and disconnects against Manager.Handle are compared byte for "
-         "byte (pushes drained per connection, counts) with the model.",
-    note="Partial: goroutine interleavings of Send/Subscribe and TCP back-pressure are runtime behaviour outside the model. Trusted: Lean kernel, harness, driver.",
+         "byte (pushes drained per connection, counts) with the model. Concurrency: PSC (Conc/PubSubConc.lean) models ChanMap.Send/Subscribe/UnSubscribe as their exact "
+         "lock/unlock/read/write steps for any number of goroutines (Go RWMutex writer preference, Send's two separate critical sections, pruning of dead connections, "
+         "fresh channel objects). Proved for every reachable state of every program and schedule: PSC.lock_order, PSC.pubsub_deadlock_free, "
+         "PSC.send_sees_consistent_set, PSC.dropped_object_is_empty, PSC.pubsub_linearizable_partial (a linearization with every operation inside its interval, "
+         "real-time order, PUBLISH reply = subscriber count at its point, per (connection, channel) delivery log = the specification's; a Send whose channel object was "
+         "dropped between its lookup and its lock is linearized by the dropping UnSubscribe). Negative, kernel-checked runs: PSC.release_deadlocks (the seeded "
+         "channel-then-table Release), PSC.cross_channel_order_not_linearizable. Tie: hook H2b records every Pub/Sub lock operation and conns-map access; on every run "
+         "each goroutine's event sequence must be a run of the model's operation automaton PSC.TA (PSC.thread_trace_accepted: every thread of the model is accepted by it), "
+         "checked by its Go transcription in every pubsub scenario and by the Lean automaton itself (driver engine PST) on the small scenarios' whole traces; sequential "
+         "scenario covering every code path and automaton state, negative controls.",
+    note="Partial: the cross-channel order of one connection's deliveries is not linearizable (refuted in Lean, a finding); the concurrency theorems are about the model "
+         "(Go scheduler, memory model, sync.RWMutex modelled; -race runs); TCP back-pressure is runtime behaviour outside the model. Trusted: Lean kernel, harness "
+         "(incl. the Go-side automaton), driver, hook H2b.",
 )
 CHECKS["C20"] = dict(
     category="proof", design_ref="DESIGN.md §6 C20", engine="serve",
